@@ -288,3 +288,24 @@ META["C06"] = {
                "thorough": {"optimizer_runs": 80000, "mapped_nodes_compared": 1000000, "evaluation_pairs": 200000, "reloads": 80000,
                             "three_party_pairs": 6000, "distinct_nontrivial": 40000}},
 }
+
+
+META["C04"] = {
+    "level": "exploration",
+    "rule": "G_mpc programs (incl. truncation, mixed multiply / OT, call and iterate bodies inlined several times) x random owner / "
+            "output / inline-mode configuration: the main graph after prepare_for_mpc_evaluation and after the whole compile_context "
+            "pipeline is walked for PRF-counter uniqueness, one execution's PRF-call log is checked for a repeated (key, counter), and "
+            "the pre-optimisation compiler output as well as G_inl graphs (Random / PRF nodes keyed by constants, inputs and Random "
+            "nodes, pairs with equal key and counter) are given to optimize_context whose mapping is inspected; a case is one "
+            "(program, configuration) or one G_inl graph; non-trivial = at least 2 PRF nodes (compiled) / at least one randomising or "
+            "PRF node (G_inl); distinct by structural hash",
+    "assumptions": COMMON_ASSUMPTIONS + [
+        "uniqueness and multiset preservation are decided by inspection of the live graphs returned by the real pipeline",
+        "a randomising node that is absent from the mapping is accepted (dropped as dangling); semantic equality of the outputs "
+        "under replayed randomness guards against dropping a needed one",
+    ],
+    "floors": {"quick": {"graphs_walked": 4000, "prf_nodes_seen": 40000, "prf_calls_logged": 20000, "optimizer_runs": 10000,
+                         "random_or_prf_nodes_mapped": 10000, "distinct_nontrivial": 3000},
+               "thorough": {"graphs_walked": 80000, "prf_nodes_seen": 800000, "prf_calls_logged": 400000, "optimizer_runs": 200000,
+                            "random_or_prf_nodes_mapped": 200000, "distinct_nontrivial": 60000}},
+}
